@@ -79,6 +79,10 @@ class HeaderTable:
                         and U(n.targets[0]) == name]
                 if len(defs) == 1:
                     return defs[0].value
+                if len(defs) == 2:
+                    # `if c: name = a  else: name = b` joined before the use: the conditional expression
+                    from .core import conditional_def
+                    return conditional_def(slot.func.node, name)
                 return None
             try:
                 return ast.parse(d, mode='eval').body
